@@ -163,11 +163,51 @@ def cone_in_ellipse(ctx, crate):
                "the test ellipse is built from %s" % ([show(a)[:40] for a in fo[0].args[:2]] if fo else "?"), at=b.span, kind="N")
 
 
+def centre_normalisation(ctx, crate):
+    """N: `normalize_lonlat` (applied to the centre of the projection, i.e. of the ellipse) brings a
+    longitude outside [0, 2pi) back into it and leaves a position on the sphere where it is: read at
+    8 positions (negative, beyond 2pi, in range; several latitudes), one leaf per way through its tests."""
+    import math
+    from rules.common import explore_leaves, feval
+    clause = "projection-formulae"
+    fns = [p_ for p_ in crate.bodies if p_.endswith("::normalize_lonlat")]
+    if len(fns) != 1: return
+    fn = fns[0]
+    b = ctx.anchor(crate, fn, clause)
+    if b is None: return
+    pn = b.param_names()
+    if len(pn) != 2:
+        ctx.not_decided("normalize_lonlat: unexpected signature"); return
+    L0, B0 = ('deref', ('p', pn[0])), ('deref', ('p', pn[1]))
+    leaves = explore_leaves(crate, fn, max_tests=8)
+    if leaves is None:
+        ctx.undecided(clause, fn + ":positions", "cannot enumerate the ways through the tests", at=b.span); return
+    bad = []
+    for lon, lat in ((-1.0, 0.5), (-0.3, -1.2), (7.0, 0.9), (2 * math.pi, 0.0), (13.0, -0.4), (1.0, 0.5), (6.2, 1.5), (-4.0, 1.0)):
+        env = {L0: lon, B0: lat}
+        got = None
+        for forced, el, rl in leaves:
+            if not rl.returns: continue
+            ok = True
+            for t, c in forced.items():
+                v = feval(t, env, el)
+                if v is None or bool(v) != bool(c[2]): ok = False; break
+            if ok:
+                gl = feval(rl.state.heap.get(L0, L0), env, el); gb = feval(rl.state.heap.get(B0, B0), env, el)
+                got = (gl, gb); break
+        wl = lon % (2 * math.pi); wb = lat
+        cyc = lambda a_, b_: min(abs(a_ - b_), 2 * math.pi - abs(a_ - b_))
+        if got is None or got[0] is None or got[1] is None or cyc(got[0], wl) > 1e-12 or not (-1e-12 <= got[0] <= 2 * math.pi + 1e-12) or abs(got[1] - wb) > 1e-12: bad.append(((lon, lat), got, (wl, wb)))
+    ctx.report(clause, fn + ":same-position-lon-in-[0,2pi)", not bad, "8 positions: longitude brought into [0, 2pi), latitude unchanged" if not bad else
+               "normalize_lonlat%s gives %s, the same position is %s — the ellipse is centred somewhere else for every longitude given outside [0, 2pi)" % bad[0], at=b.span, kind="N")
+
+
 def run(ctx):
     crate = ctx.crate("rel")
     hemisphere(ctx, crate)
     projsin_formulae(ctx, crate)
     cone_in_ellipse(ctx, crate)
+    centre_normalisation(ctx, crate)
     n = guard(ctx, crate)
     ctx.floor("guarded-entry-points", n, 5)
     if ctx.tier == "thorough":
